@@ -23,6 +23,7 @@ type Period struct {
 	Writes    int    `json:"writes"`       // some traffic while relisting
 	FailAt    int    `json:"fail_at,omitempty"`   // > 0: that list call fails with FailKind
 	FailKind  string `json:"fail_kind,omitempty"`
+	BusyCostUs int   `json:"busy_cost_us,omitempty"` // > 0: the root filter costs this much per object and a writer keeps the watch saturated (two writes per cost) for the whole run: list results must still be taken
 	Sim       SimCfg `json:"sim"`
 }
 
@@ -61,11 +62,26 @@ func genC13(g GenCtx) interface{} {
 		sc.FailAt = 1 + rng.Intn(sc.Periods)
 		sc.FailKind = pick(rng, "error", "error-with-list", "error-with-full-list", "error-timeout", "error-canceled", "error-canceled-bare", "error-deadline-bare", "error-notrunning", "error-notrunning-wrapped")
 	}
+	busy := g.Idx%10 == 7
+	if busy {
+		sc.PeriodMs = pickInt(rng, 50, 100)
+		sc.LatPreMs, sc.LatPostMs = 0, pickInt(rng, 0, 0, sc.PeriodMs/2)
+		sc.Periods = 6 + rng.Intn(10)
+		sc.BusyCostUs = sc.PeriodMs * 1000 / pickInt(rng, 10, 25)
+		sc.FailAt, sc.FailKind = 0, ""
+		sc.VaryLat = false
+		sc.CloseAtMs = rng.Intn(2*sc.PeriodMs + 1)
+	}
 	// consumption delay: the controller loop / lister / ticker starved by a drawn factor
 	sc.Sim = SimCfg{Strategy: randStrategy(rng, []string{"Create>c.run", "newLister>l.run", "newTicker>t.run", "_lister.list>func", "newCache>c.run"}),
 		NewTimers: rng.Intn(3) == 0, PermuteMaps: true, MaxSteps: 120000, EstSteps: 2000}
 	sc.Sim.Strategy.StallPermille = pickInt(rng, 0, 0, 10, 50)
 	sc.Sim.Strategy.StallMaxMs = sc.PeriodMs
+	if busy {
+		// fairness of the controller's select is the point: plain random choice
+		sc.Sim.Strategy = detsim.Strategy{Kind: "uniform"}
+		sc.Sim.MaxSteps = 600000
+	}
 	return sc
 }
 
@@ -84,8 +100,26 @@ func runC13(sci interface{}) {
 		srv.F = world.NewFaults(nil)
 		srv.F.ListScript[sc.FailAt] = sc.FailKind
 	}
-	h := world.NewH(srv, world.FilterSpec{}, per, false)
+	rootFilter := world.FilterSpec{}
+	busyCost := time.Duration(sc.BusyCostUs) * time.Microsecond
+	if busyCost > 0 {
+		rootFilter = world.FilterSpec{Op: "slow", V: itoa(sc.BusyCostUs)}
+	}
+	h := world.NewH(srv, rootFilter, per, false)
 	h.Start()
+	stopBusy := false
+	if busyCost > 0 {
+		go func() {
+			for i := 0; !stopBusy; i++ {
+				srv.Apply(world.Spec{NS: "n1", Name: "busy" + itoa(i%2), Labels: map[string]string{"i": itoa(i)}})
+				time.Sleep(busyCost / 2)
+			}
+		}()
+		defer func() { stopBusy = true }()
+		// the controller takes a pending list result within a few iterations of
+		// its loop, each of which may cost one filter evaluation
+		lat += 40 * busyCost
+	}
 	horizon := time.Duration(sc.Periods) * per
 	step := horizon / time.Duration(sc.Writes+1)
 	for i := 0; i <= sc.Writes; i++ {
@@ -129,6 +163,8 @@ func runC13(sci interface{}) {
 		detsim.Fail("relisting-stopped", "no new list call within %v after %d calls (period %v, latency %v, %d in flight)\n%s", bound, n0, per, lat, inflight, srv.Summary())
 	}
 	checkListDiscipline(srv, per)
+	stopBusy = true
+	grace := time.Millisecond + 200*busyCost // filter evaluations in progress (an event, a relist of a few objects) are not interrupted, and the shutdown request competes with ready events
 	// and it still shuts down promptly, wherever in the cycle
 	if sc.CloseAfterSteps > 0 {
 		// shutdown-point injection by step count: lands between any two hand-offs
@@ -145,10 +181,10 @@ func runC13(sci interface{}) {
 			time.Sleep(per/7 + time.Microsecond)
 		}
 		if fired {
-			if !world.WaitClosed(closed, time.Millisecond) {
+			if !world.WaitClosed(closed, grace) {
 				detsim.Fail("hang:Close", "Controller.Close(), issued at an arbitrary point of the list/tick cycle, did not return\n%s\n%s", dumpLive(), srv.Summary())
 			}
-			if !world.WaitClosed(h.Ctrl.Done(), time.Millisecond) {
+			if !world.WaitClosed(h.Ctrl.Done(), grace) {
 				detsim.Fail("hang:Done", "Controller.Done() did not close after Close() returned")
 			}
 			detsim.Settle()
@@ -158,7 +194,7 @@ func runC13(sci interface{}) {
 	}
 	time.Sleep(ms(sc.CloseAtMs))
 	checkListDiscipline(srv, per)
-	closeAndCheckClean(h, time.Millisecond)
+	closeAndCheckClean(h, grace)
 }
 
 // checkListDiscipline: one list at a time; call i+1 starts no earlier than
